@@ -2425,7 +2425,16 @@ class cmd_remove(Command):  # noqa: D101
         # some such?
         if new:
             added = tree.changes_from(tree.basis_tree(), specific_files=file_list).added
-            file_list = sorted([f.path[1] for f in added], reverse=True)
+            # changes_from also reports the new parent directories of the
+            # named files; only what was named (or is below it) is selected.
+            file_list = sorted(
+                [
+                    f.path[1]
+                    for f in added
+                    if file_list is None or osutils.is_inside_any(file_list, f.path[1])
+                ],
+                reverse=True,
+            )
             if len(file_list) == 0:
                 raise errors.CommandError(gettext("No matching files."))
         elif file_list is None:
